@@ -116,6 +116,10 @@ def r2(ctx):
                     idx = cols[0][2][2]
                     if not (is_call(idx, 'Iterator::next') and s(idx[2][0]) == s(keep)):
                         good = False
+                    # the column is put back as a (rows x 1) block: the axis inserted is the axis the blocks are concatenated along
+                    ins = [x for x in walk(e) if is_call(x, 'ArrayBase::insert_axis')]
+                    if len(ins) != 1 or s(ins[0][2][1]) != AX1 or s(ins[0][2][0]) != s(cols[0]):
+                        good = False
                 if good:
                     ok = True
         if ok:
